@@ -24,7 +24,7 @@ class Kinds:
     self._field = {}
     self._busy = set()
 
-  def kind(self, f, e, at=None, depth=8):
+  def kind(self, f, e, at=None, depth=60):
     if depth <= 0 or e is None:
       return None
     ctx = FuncCtx.of(f)
@@ -69,6 +69,8 @@ class Kinds:
         return 'np'
       return None
     if isinstance(e, ast.Attribute):
+      if norm(e) in ('np.nan', 'np.inf', 'np.pi', 'np.e', 'math.pi', 'math.inf', 'math.nan', 'math.e', 'numpy.nan', 'numpy.inf'):
+        return 'py'     # plain Python floats
       base = self.T.type_of(f, e.value, at)
       if base is not None:
         if base.qualname == 'tbrmmdesignparameters.TBRMMDesignParameters':
@@ -133,6 +135,8 @@ class Kinds:
         return self._ret_elems(t[1], depth - 1)
       return None
     if isinstance(e, ast.Attribute):
+      if norm(e) in ('np.nan', 'np.inf', 'np.pi', 'np.e', 'math.pi', 'math.inf', 'math.nan', 'math.e', 'numpy.nan', 'numpy.inf'):
+        return 'py'     # plain Python floats
       base = self.T.type_of(f, e.value, at)
       if base is None:
         return None
@@ -215,7 +219,7 @@ class Kinds:
         return self.elem_kind(f, d.value, d.node, depth - 1)
     return None
 
-  def returns(self, g, depth=6):
+  def returns(self, g, depth=40):
     key = ('ret', g.qualname)
     if key in self._ret:
       return self._ret[key]
@@ -231,7 +235,7 @@ class Kinds:
     self._ret[key] = r
     return r
 
-  def yields(self, g, depth=6):
+  def yields(self, g, depth=40):
     key = ('yield', g.qualname)
     if key in self._ret:
       return self._ret[key]
@@ -251,7 +255,7 @@ class Kinds:
     self._ret[key] = r
     return r
 
-  def field(self, cls, name, depth=6):
+  def field(self, cls, name, depth=40):
     key = ('field', cls.qualname, name)
     if key in self._ret:
       return self._ret[key]
